@@ -29,7 +29,12 @@ class Coll:
         op = S.frame(S.OPEN, S.open_body(self.ras, bid=self.remote_id)).hex()
         first, second = ("cO", "cI") if self.order == "out-first" else ("cI", "cO")
         st = [["accept", "cO", 3000], ["recv", "cO", 1, 2000], ["dial", "cI"], ["recv", "cI", 1, 2000]]
-        if self.order == "established-first":
+        if self.order == "late-inbound":
+            # the inbound connection is opened only after the outbound one has completed its OPEN exchange (OpenConfirm)
+            st = [["accept", "cO", 3000], ["recv", "cO", 1, 2000], ["send", "cO", op, 0], ["recv", "cO", 2, 2000], ["sleep", 30],
+                  ["dial", "cI"], ["recv", "cI", 1, 1500], ["send", "cI", op, 0], ["sleep", 80],
+                  ["send", "cO", KA, 0], ["send", "cI", KA, 0], ["sleep", 80]]
+        elif self.order == "established-first":
             st += [["send", "cO", op, 0], ["recv", "cO", 2, 2000], ["send", "cO", KA, 0], ["sleep", 40],
                    ["send", "cI", op, 0], ["sleep", 80]]
         else:
@@ -104,7 +109,7 @@ def items(rng, tier):
     reps = 1 if tier == "quick" else 4
     for _ in range(reps):
         for (lid, rid, las, ras) in idcfg:
-            for order in ("out-first", "in-first"):
+            for order in ("out-first", "in-first", "late-inbound"):
                 out.append(Coll(sid, lid, rid, las, ras, order))
                 sid += 1
         for (lid, rid, las, ras) in idcfg[:2]:
